@@ -15,6 +15,8 @@ def run_spec(ctx, rep, spec, model, only=None):
     path = ctx.newdir("c03_")
     plotgen.materialize(spec, path)
     tree = tastelib.snapshot(path)
+    if spec.get("path_form") == "symlink":
+        path = ctx.via_symlink(path); rep.count("path-through-symlink-and-dotdot")
     feats = plotgen.describe(spec)
     nlev = len(spec["levels"])
     batch = tastelib.ModelBatch()
@@ -44,6 +46,12 @@ def run_spec(ctx, rep, spec, model, only=None):
                     continue
                 if model:
                     pend.append((case, batch.taste(tree, limit, opts["binary_headers"], opts["binary_shape"])))
+                    if opts.get("boxes_coordinates") and not nofail and not cli:
+                        mv = tastelib.coords_model_verdict(path, leanio, limit)
+                        if mv == "good":
+                            rep.agree(); rep.count("coords-model-accepts")
+                        elif mv is not None:
+                            rep.tie(f"box-coordinate validation: the Lean model says {mv} for a well-formed plotfile the validator accepts", case)
     wf_idx = []
     if model and only is None and len(set(spec["fields"])) == len(spec["fields"]):
         # certificate: is this plotfile, as bytes on disk, well formed in the sense of the completeness theorem
@@ -66,12 +74,37 @@ def run_spec(ctx, rep, spec, model, only=None):
                 rep.tie("validator accepts a well-formed plotfile the model rejects", case, rs[i])
 
 
+def directories_session(ctx, rep, seed):
+    from amr_kitchen.taste.taste import Taster
+    from .. import sessions
+    dirs = sessions.two_directories(ctx, seed, "c03dirs_", names=("plt00010", "plt00020"), nf=2, data="tags", B=2, layout="scatter")
+    case = {"directories_session": seed}
+    rep.case({"dirsession": seed}, nontrivial=True); rep.count("relative-names-from-two-working-directories-real-pool")
+
+    def action(k, name, spec, truth):
+        for kw in (dict(), dict(binary_data=True, boxes_coordinates=True), dict(nofail=True)):
+            try:
+                if not bool(Taster(name, verbose=0, **kw)):
+                    return f"the well-formed plotfile opened as {name!r} is reported bad ({kw})"
+            except BaseException as e:
+                if isinstance(e, KeyboardInterrupt): raise
+                return f"validation of the well-formed plotfile opened as {name!r} raised {type(e).__name__}: {e}"
+        return None
+    bad = sessions.visit(dirs, action)
+    if bad:
+        rep.fail(bad, case)
+    else:
+        rep.agree()
+
+
 def run(ctx, rep, model=True):
+    directories_session(ctx, rep, ctx.rng.randrange(1 << 30))
     n = 14 if ctx.quick else 80
     for i in range(n):
         spec = plotgen.random_spec(ctx.rng, nf=[2, 3, 1, 4][i % 4], data=["tags", "bits"][i % 2], B=2,
                                    layout=["scatter", "files", "perm", "scatter", "files", "mono", "scatter"][i % 7], exact=(i % 3 != 2),
                                    scale=[None, None, "centred", None, "far", "centred", "tiny"][i % 7])
+        if i % 5 == 3: spec["path_form"] = "symlink"
         run_spec(ctx, rep, spec, model)
         if len(rep.violations) >= 10:
             return
@@ -79,4 +112,6 @@ def run(ctx, rep, model=True):
 
 def replay(ctx, rep, obj, model=True):
     c = obj["case"]
+    if "directories_session" in c:
+        directories_session(ctx, rep, c["directories_session"]); return
     run_spec(ctx, rep, c["spec"], model, only=c["mode"])
